@@ -69,6 +69,7 @@ def shards(tier):
 
 
 def requested_tuple(s):
+    s = {k: v for k, v in s.items() if k != "variant"}
     return (s["power"], s["beep"], s["mode"], s["temp"], s["fan"], s["swing"], s["turbo"], s["follow_me"], s["eco"],
             s["purifier"], s["aux"] == 1, s["aux"] == 2, s["sleep"], s["fahrenheit"], s["humidity"], s["freeze"])
 
@@ -83,14 +84,33 @@ NAMES = ("power", "beep", "mode", "temp", "fan", "swing", "turbo", "follow_me", 
          "independent_aux(bit)", "sleep", "fahrenheit", "humidity", "freeze")
 
 
-def execute(s):
-    rig = Rig(2)
+def execute(s, variant=0):
+    """variant 1: a property change is pending too and the unit adds a truthful state report to every answer;
+    variant 2: enumerated settings are given as plain integers equal to the members."""
+    from msmart.device import AirConditioner as AC
+
+    def script(req):
+        if variant == 1 and req.frame is not None and len(req.frame) > 10 and req.frame[10] in (0xB0, 0xB1):
+            # the unit answers a property command with the acknowledgement AND a (truthful) state report, back to back
+            req.conn.deliver_many(list(req.responses) + [req.dev.wrap(req.conn, req.dev.ac.report(0x05, 0x66))], 0.01)
+            return
+        for p in req.responses:
+            req.send(p)
+
+    from ..refdevice import RefAC
+    rig = Rig(2, ac=RefAC({"power": False, "mode": 3, "temp": 19.0, "fan": 77, "eco": True, "humidity": 61, "swing": 0x3}), script=script)
     ac = rig.client()
     dz.apply_to_client(ac, s)
+    if variant == 1:
+        ac.horizontal_swing_angle = AC.SwingAngle.POS_3
+        ac.ieco = True
+    if variant == 2:
+        ac.operational_mode, ac.swing_mode, ac.aux_mode = int(s["mode"]), int(s["swing"]), int(s["aux"])
+        ac.fan_speed = int(s["fan"])
     try:
         out = rig.run(ac.apply())
         ctl = rig.dev.ac.controls[-1] if rig.dev.ac.controls else None
-        body = rig.dev.ac.frames[-1].body[:-1] if rig.dev.ac.frames else None
+        body = next((f.body[:-1] for f in reversed(rig.dev.ac.frames) if f.body[0] == 0x40), None)
         rej = rig.dev.ac.rejected[-1][1] if rig.dev.ac.rejected else None
         return out, ctl, body, rej
     finally:
@@ -130,14 +150,16 @@ def run_shard(shard, tier) -> Stats:
     st = Stats()
     det = Determinism(first=3, every=499)
     table = {}
-    for s in cases:
-        res = execute(s)
-        if det.due():
-            r2 = execute(s)
-            det.check((str(res[0]), res[2]), (str(r2[0]), r2[2]), s)
-        prob = judge(st, s, *res, table)
-        st.ev(tuple(sorted(s.items())), "match" if not prob else "differ", True,
-              sample=None if len(st.samples) >= 2 else {"requested": s, "body": res[2].hex() if res[2] else None})
+    for ci, s in enumerate(cases):
+        for variant in ((0, 1, 2) if ci % 4 == 0 else (0,)):
+            res = execute(s, variant)
+            if det.due():
+                r2 = execute(s, variant)
+                det.check((str(res[0]), res[2]), (str(r2[0]), r2[2]), s)
+            case = s if not variant else {**s, "variant": ["", "pending property + state report with every answer", "enums as plain ints"][variant]}
+            prob = judge(st, case, *res, table if not variant else {})
+            st.ev((tuple(sorted(s.items())), variant), "match" if not prob else "differ", True,
+                  sample=None if len(st.samples) >= 2 else {"requested": s, "body": res[2].hex() if res[2] else None})
     st.extra["distinct_bodies"] = len(table)
     st.reruns += det.reruns
     return st
@@ -145,6 +167,7 @@ def run_shard(shard, tier) -> Stats:
 
 def replay(case):
     st = Stats()
-    res = execute(case)
+    v = ["", "pending property + state report with every answer", "enums as plain ints"].index(case.get("variant", ""))
+    res = execute({k: x for k, x in case.items() if k != "variant"}, v)
     prob = judge(st, case, *res, {})
     return {"problem": prob, "body": res[2].hex() if res[2] else None}
